@@ -345,6 +345,11 @@ def gen_scenario(rng, tier: str) -> Dict[str, Any]:
         npre = rng.choice((0, 0, 0, 1, 2))
         delta = rng.choice((-2, -1, 0, 0, 0, 1, 1, 1, 2, 3))
         nest = max(1, L + delta)
+        if rng.random() < 0.02:
+            import sys as _sys
+
+            L = rng.choice((10_001, 10**6, 10**9, _sys.maxsize))  # a huge limit over shallow data
+            nest = rng.randint(1, 12)
         total = nest + npre
         mix = rng.choice(("l", "d", "ld", "dl", "rand"))
         kinds = "".join(rng.choice("ld") for _ in range(total)) if mix == "rand" else (mix * total)[:total]
@@ -399,6 +404,11 @@ def gen_scenario(rng, tier: str) -> Dict[str, Any]:
                 nest = int(N.nesting(D.build(spec)))
                 L = max(1, nest + rng.choice((-2, -1, -1, 0, 0, 0, 1, 2)))
             shape = {"class": "dag", "name": name}
+            if rng.random() < 0.15:
+                # limits far beyond any data: nothing may treat "huge limit" as a mode of its own
+                import sys as _sys
+
+                L = rng.choice((10_000, 10_001, 10**6, 10**9, _sys.maxsize))
         segs = []
         if rng.random() < 0.3:
             segs.append({"k": "child", "sels": [rng.choice(PREFIX_SELS)], "sh": False})
@@ -504,16 +514,22 @@ def evaluate(sc: Dict[str, Any], sseed: int, profile: Dict[str, Any], feed: Opti
                         # other queries on the same environment visit PARTS of the same document object
                         # first (a traversal of a subtree says nothing about the rest of the document)
                         for wq in ("$.b..*", "$[0]..*", "$[-1]..*", "$.c..*", "$.*..[0]"):
+                            clock.steps = 0
                             one(lambda wq=wq: env.find(wq, doc))
+                    clock.steps = 0
                     if plan.get("abandon") == "find_one":
                         one(lambda: [compiled.find_one(doc)][:0])
                     elif plan.get("abandon") == "partial":
                         def _partial() -> List[Any]:
                             it = iter(compiled.finditer(doc))
                             next(it, None)
+                            close = getattr(it, "close", None)
+                            if close is not None:
+                                close()  # (explicitly, so that nothing is finalised behind our back)
                             del it
                             return []
                         one(_partial)
+                    clock.steps = 0
                     if plan.get("mutate") and isinstance(doc, (list, dict)):
                         # the CALLER changes the document in place (deeper than the limit, or circular)
                         # between two applications of the compiled query: what an earlier evaluation
